@@ -341,6 +341,9 @@ func c11(r *Report) propMeta {
 	// TickToPrice and lands up to three ticks high)
 	r.ArgEdgesAmong("encoded-tick-is-PriceToTick-of-the-price", "x/feeds/types.ToRelayTickPrices", "types.NewRelayPrice", 1,
 		[][]string{{"^field:Price.Price"}, {"^~call:tickmath.PriceToTick", "field:Price.Price"}}, "the price itself (when it is 0) or the result of tickmath.PriceToTick(price.Price)")
+	// the tunnel originator of a signed packet names the packet's TUNNEL (seed C11-13 passed packet.Sequence, the other
+	// uint64 of the packet: packets of different tunnels with the same sequence then share one originator)
+	r.ArgHas("originator-names-the-tunnel", "x/tunnel/keeper.Keeper.SendTSSPacket", "BandtssKeeper.CreateTunnelSigningRequest", 1, 1, "^field:Packet.TunnelID")
 	r.UnsignedSubGuarded("shift-counts", "pkg/tickmath.PriceToTick", 2)
 	r.NormalisedBeforeSquaring("mantissa-normalised", "pkg/tickmath.PriceToTick")
 
